@@ -120,6 +120,7 @@ const (
 
 type vInv struct {
 	draws    []uint64 // values received, in order
+	attempts int      // draws started (a draw cut short by invalid data is started but not received)
 	signals  int      // failure signals raised during this invocation (incl. its cleanups and custom fns)
 	nonFatal int
 	fatalAt  int    // site id of the fatal failure, 0 if none
@@ -198,6 +199,7 @@ func (p *vProg) execCB(t *T, ops []uint8, inv *vInv, inCallback bool, inCleanup 
 		case opReturn:
 			return
 		case opDrawBool:
+			inv.attempts++
 			b := Bool().Draw(t, "b")
 			lastBit = b
 			if b {
@@ -206,9 +208,11 @@ func (p *vProg) execCB(t *T, ops []uint8, inv *vInv, inCallback bool, inCleanup 
 				inv.draws = append(inv.draws, 0)
 			}
 		case opDrawByte:
+			inv.attempts++
 			v := Uint8().Draw(t, "u8")
 			inv.draws = append(inv.draws, uint64(v))
 		case opDrawSmall:
+			inv.attempts++
 			v := IntRange(0, 3).Draw(t, "small")
 			inv.draws = append(inv.draws, uint64(v))
 		case opErrorf:
